@@ -71,7 +71,7 @@ static long fam_count(int tier, int fam)
     return n;
 }
 
-#define N_SHARED (8 * 2 * 3 * 3 * 2)	/* type x family x grid relation x solve
+#define N_SHARED (8 * 2 * 4 * 3 * 2)	/* type x family x grid relation x solve
 					   order x guess */
 
 static long count(int tier)
@@ -452,7 +452,7 @@ out:
  * types) and TRL on 2x2 (closed-form path, T8 U8 TE10 UE10).
  */
 #define N_SHARED_FAM 2
-#define N_SHARED_GRID 3
+#define N_SHARED_GRID 4
 static void run_shared(long idx, vf_result *r)
 {
     static cs_scenario a, b;
@@ -467,15 +467,21 @@ static void run_shared(long idx, vf_result *r)
     char sig[160];
     vnacal_t *vcp;
     const int fam = sfam ? F_TRL : F_UREFLECT1;
-    const int nfa = grel == 0 ? 2 : grel == 1 ? 3 : 4;
+    const int nfa = grel == 0 ? 2 : grel == 1 ? 3 : grel == 3 ? 3 : 4;
     const int nfb = grel == 0 ? 5 : nfa;
 
     vf_desc(r, "shared unknown%s %s: vnacal_new_t A on %d frequencies and "
 	    "B on %d (%s), solved %s, values read after each solve",
 	    sfam ? "s of a TRL 2x2" : " reflect 1x1", tname, nfa, nfb,
 	    grel == 0 ? "different lengths" : grel == 1 ? "same length, "
-	    "shifted band" : "same length and end points, other interior "
+	    "shifted band" : grel == 3 ? "a band six times higher where the "
+	    "reflect has the opposite sign; the guesses are tables over both "
+	    "bands" : "same length and end points, other interior "
 	    "points", order ? "B, A, B" : "A, B, A");
+    if (grel == 3 && !sfam) {
+	vf_outcome(r, "n/a (the far band is a TRL case)");
+	return;
+    }
     if (sfam && idx >= 4) {
 	vf_outcome(r, "n/a (TRL needs an 8/10-term type)");
 	return;
@@ -488,7 +494,9 @@ static void run_shared(long idx, vf_result *r)
 	double fv[CS_MAXF];
 	const double f0 = a.vna.f[0], f1 = a.vna.f[nfa - 1];
 	for (int i = 0; i < nfb; ++i) {
-	    if (grel == 1)
+	    if (grel == 3)
+		fv[i] = 6.0 * a.vna.f[i];
+	    else if (grel == 1)
 		fv[i] = a.vna.f[i] + 0.37 * (f1 - f0);
 	    else
 		fv[i] = (i == 0 || i == nfb - 1) ? a.vna.f[i] :
@@ -502,6 +510,39 @@ static void run_shared(long idx, vf_result *r)
     if (vcp == NULL || cs_make_params(vcp, &a) != 0) {
 	vf_fail(r, "shared:setup", "set-up failed");
 	goto out;
+    }
+    if (grel == 3) {
+	/*
+	 * In band B the reflect is another one (opposite sign).  The
+	 * guesses are tables over both bands, near the truth of each band:
+	 * every solve starts from what the user said about its band, not
+	 * from what an earlier solve found in another.
+	 */
+	b.param[unk[0]].c0 = -b.param[unk[0]].c0;
+	b.param[unk[0]].c1 = -b.param[unk[0]].c1;
+	for (int u = 0; u < nunk; ++u) {
+	    double gf[2 * CS_MAXF];
+	    double complex gv[2 * CS_MAXF];
+	    int n = 0;
+	    for (int i = 0; i < nfa; ++i) {
+		gf[n] = a.vna.f[i];
+		gv[n++] = guess * cs_param_value(&a.vna, &a.param[unk[u]],
+			a.vna.f[i]);
+	    }
+	    for (int i = 0; i < nfb; ++i) {
+		gf[n] = b.vna.f[i];
+		gv[n++] = guess * cs_param_value(&b.vna, &b.param[unk[u]],
+			b.vna.f[i]);
+	    }
+	    int hv = vnacal_make_vector_parameter(vcp, gf, n, gv);
+	    int hu = hv < 0 ? -1 : vnacal_make_unknown_parameter(vcp, hv);
+	    if (hu < 0) {
+		vf_fail(r, "shared:setup", "two-band guess: %s",
+			elog.count ? elog.msg[0] : "");
+		goto out;
+	    }
+	    a.param[unk[u]].handle = hu;
+	}
     }
     for (int k = 0; k < a.nparam; ++k)
 	b.param[k].handle = a.param[k].handle;
